@@ -102,6 +102,10 @@ impl Case {
     pub fn count(&mut self, key: &str, n: u64) {
         self.counters.push((key.to_string(), n));
     }
+    /// what this case has counted under `key` so far
+    pub fn counter(&self, key: &str) -> u64 {
+        self.counters.iter().filter(|(k, _)| k == key).map(|(_, n)| *n).sum()
+    }
     pub fn nontrivial(&mut self, h: u64) {
         self.nontrivial.push(h);
     }
